@@ -43,11 +43,11 @@ Section AlgoProofs.
 
   (** rank = N: "very end" (lines 139-144) *)
   Theorem partition_full_rank (seqs : list (list A)) :
-    dflt seqs <> None -> any_empty seqs = false -> all_sorted ltb seqs ->
+    any_empty seqs = false -> all_sorted ltb seqs ->
     partition ltb seqs (Z.of_nat (total seqs)) = Some (map Z.of_nat (split_spec ltb seqs (total seqs))).
   Proof.
-    intros Hd Hne Hs. unfold partition, partition_gen.
-    destruct (dflt seqs) as [d|]; [|congruence]. rewrite Hne, ztotal_total, Z.eqb_refl.
+    intros Hne Hs. unfold partition, partition_gen.
+    rewrite Hne, ztotal_total, Z.eqb_refl.
     f_equal. rewrite <- (spec_unique ltb seqs (total seqs) _ _ (is_split_full seqs)
                           (split_spec_is_split ltb HS seqs (total seqs) Hs (le_n _))).
     rewrite map_map. reflexivity.
@@ -84,10 +84,11 @@ Section AlgoProofs.
   Theorem partition_offsets_in_range (midlex : bool) (seqs : list (list A)) (rank : Z) (offs : list Z) :
     partition_gen ltb midlex seqs rank = Some offs -> forallb2 in_range seqs offs = true.
   Proof.
-    unfold partition_gen. destruct (dflt seqs) as [d|]; [|discriminate].
+    unfold partition_gen.
     destruct (any_empty seqs); [discriminate|].
     destruct (rank =? ztotal seqs)%Z; [intros H; injection H as <-; apply in_range_lens|].
     destruct ((rank <? 0)%Z || (ztotal seqs <? rank)%Z); [discriminate|].
+    destruct (dflt seqs) as [d|]; [|discriminate].
     unfold core. cbv zeta.
     match goal with |- context [init_ab ?x1 ?x2 ?x3 ?x4 ?x5 ?x6 ?x7] => destruct (init_ab x1 x2 x3 x4 x5 x6 x7) as [a0 b0] end.
     match goal with |- context [refine ?x1 ?x2 ?x3 ?x4 ?x5 ?x6 ?x7 ?x8 ?x9 ?x10 ?x11] =>
@@ -159,6 +160,25 @@ Proof.
   intros H. apply (check_split_complete Nat.ltb) in H. vm_compute in H. discriminate.
 Qed.
 
+(** ** The code before b429853 kept the total in the caller's RankType: with an 8-bit rank type and 200 + 100 elements
+    the total 300 wraps to 44 - rank 44 (valid) is answered with the very ends and the selection throws, rank 255
+    (valid) hits the assertion; the repaired model answers both. *)
+Definition narrow_witness : list (list nat) := [repeat 1 200; repeat 1 100].
+
+Lemma total_in_ranktype_shipped_refuted :
+  all_sorted Nat.ltb narrow_witness /\ any_empty narrow_witness = false /\ total narrow_witness = 300 /\
+  partition_total_in_ranktype_shipped Nat.ltb 8 narrow_witness 44 = Some [200; 100]%Z /\
+  check_split Nat.ltb narrow_witness 44 [200; 100] = false /\
+  selection_total_in_ranktype_shipped_throws 8 narrow_witness 44 = true /\
+  partition_total_in_ranktype_shipped Nat.ltb 8 narrow_witness 255 = None /\
+  partition Nat.ltb narrow_witness 44 = Some [44; 0]%Z /\
+  selection Nat.ltb narrow_witness 44 = SelOk 1 44%Z /\
+  partition Nat.ltb narrow_witness 255 = Some [200; 55]%Z.
+Proof.
+  split; [unfold all_sorted, narrow_witness; repeat constructor; vm_compute; reflexivity|].
+  repeat split; vm_compute; reflexivity.
+Qed.
+
 (** ** Bounded-exhaustive evaluation of the full statements inside Coq (Examples, not the theorem). *)
 Fixpoint sorted_seqs (len from keys : nat) : list (list nat) :=
   match len with
@@ -204,13 +224,19 @@ Example partition_selection_small_greater :
   forallb (all_ranks_ok gtb) (map (map (@rev nat)) (tuples 2 (pool 4 3))) = true.
 Proof. vm_compute. reflexivity. Qed.
 
+(** no sequence at all: rank 0 is the "very end" case (empty answer), the selection throws *)
+Example no_sequences :
+  partition Nat.ltb [] 0 = Some [] /\ partition Nat.ltb [] 1 = None /\ selection Nat.ltb [] 0 = SelThrow /\
+  selection Nat.ltb [[]; []] 0 = SelThrow.
+Proof. repeat split; vm_compute; reflexivity. Qed.
+
 (** the hypotheses of partition_accepted_partial / partition_full_rank are satisfiable by a non-trivial input *)
 Example hypotheses_satisfiable :
   let seqs := [[1; 3; 3; 7]; [2; 3]; [3; 3; 8; 9; 9]] in
-  all_sorted Nat.ltb seqs /\ any_empty seqs = false /\ dflt seqs <> None /\
+  all_sorted Nat.ltb seqs /\ any_empty seqs = false /\
   partition Nat.ltb seqs 6 = Some [3; 2; 1]%Z /\ check_split Nat.ltb seqs 6 [3; 2; 1] = true /\
   selection Nat.ltb seqs 6 = SelOk 3 4%Z.
 Proof.
-  cbv zeta. split; [repeat constructor|]. split; [reflexivity|]. split; [discriminate|].
+  cbv zeta. split; [repeat constructor|]. split; [reflexivity|].
   repeat split; vm_compute; reflexivity.
 Qed.
